@@ -325,6 +325,8 @@ class Interp:
     def seq(self, v):
         """python list of the elements of an iterable value"""
         h = self.h
+        if isinstance(v, tuple) and len(v) == 4 and v[0] == 'record' and isinstance(v[2], tuple) and isinstance(v[3], tuple):
+            return list(v[3])           # a namedtuple iterates over its field values
         if isinstance(v, (list, tuple)):
             return list(v)
         if isinstance(v, PyIter):
